@@ -307,6 +307,7 @@ func checkC08(c *Ctx, r *Report) {
 	checkDMPlacement(c, r)
 	checkDMRegionSwitches(c, r)
 	checkDMBlockInterleave(c, r)
+	checkDMEccOrder(c, r)
 	r.Note("not decided: the decoder's de-interleave (DataBlock_getDataBlocks, loop-carried offsets with the 144x144 special case); the finder/clock drawing loop; the traversal loop of Place/readCodewords beyond its shapes and trigger conditions")
 }
 
@@ -1120,7 +1121,7 @@ func checkDMRegionSwitches(c *Ctx, r *Report) {
 // the encoder's multi-block branch: block b is fed exactly codewords[b], codewords[b+n], ... and its check words
 // land at capacity + b, capacity + b + n, ...
 func checkDMBlockInterleave(c *Ctx, r *Report) {
-	r.Rule("S-DMBLOCK", "in ErrorCorrection_EncodeECC200's multi-block branch every block's input to createECCBlock is a buffer created empty inside that block's iteration and extended only by append(buf, codewords[d]) for d = block, block+blockCount, ... < data capacity (so its length is that block's own data length, also for the 144x144 symbol whose last two blocks are one shorter), the check word count is the block's own error length, and check word k of block b is stored at dataCapacity + b + k*blockCount", 3)
+	r.Rule("S-DMBLOCK", "in ErrorCorrection_EncodeECC200's multi-block branch every block's input to createECCBlock is a buffer created empty inside that block's iteration and extended only by append(buf, codewords[d]) for d = block, block+blockCount, ... < data capacity (so its length is that block's own data length, also for the 144x144 symbol whose last two blocks are one shorter), the check word count is the block's own error length, and check word k of a block is stored at dataCapacity + the block's column + k*blockCount (which column: S-DMECCORDER)", 3)
 	fd, p := c.funcDeclOf("datamatrix/encoder", "ErrorCorrection_EncodeECC200")
 	key := "datamatrix/encoder.ErrorCorrection_EncodeECC200"
 	if fd == nil {
@@ -1259,23 +1260,25 @@ func checkDMBlockInterleave(c *Ctx, r *Report) {
 		if len(ks) != 2 {
 			continue
 		}
-		// index = capacity + (block0 + Kb) + Ke*blockCount ; value = ecc[Ke]
-		for _, perm := range [][2]string{{ks[0], ks[1]}, {ks[1], ks[0]}} {
-			kb, ke := polyAtom(perm[0]), polyAtom(perm[1])
+		// index = capacity + start(block) + Ke*blockCount ; value = ecc[Ke]. Which column start(block) is, is decided
+		// by S-DMECCORDER against the decoder; here: the stride is the block count and the k-th check word is ecc[k]
+		for _, ke := range ks {
+			Ke := polyAtom(ke)
 			cnt := s.atomFor(countObj)
 			for _, cl := range s.calls {
 				if fn, isF := cl.Callee.(*types.Func); isF && fn.Name() == "GetDataCapacity" && cl.Recv != nil {
 					capA := polyAtom("call:" + shortObj(cl.Callee) + "(" + cl.Recv.String() + ")")
-					if st.Index.equal(capA.add(kb).add(ke.mul(cnt))) && strings.HasSuffix(st.Val.String(), ","+perm[1]+")") {
+					start := st.Index.sub(capA).sub(Ke.mul(cnt))
+					if !strings.Contains(start.String(), ke) && strings.HasSuffix(st.Val.String(), ","+ke+")") {
 						okPlace = true
-						blockAtom = perm[0]
+						blockAtom = ke
 					}
 				}
 			}
 		}
 	}
 	_ = blockAtom
-	r.Check(okPlace, "S-DMBLOCK", key+"/placement", c.pos(blockLoop.Pos()), "check word k of block b must be stored at dataCapacity + b + k*blockCount from ecc[k]; found index "+got)
+	r.Check(okPlace, "S-DMBLOCK", key+"/placement", c.pos(blockLoop.Pos()), "check word k of a block must be stored at dataCapacity + <the block's column> + k*blockCount from ecc[k]; found index "+got)
 }
 
 // interleaveHeader: `for d := block; d < X.GetDataCapacity(); d += blockCount` with d the index used.
@@ -1304,4 +1307,199 @@ func interleaveHeader(p *packages.Package, l *ast.ForStmt, blockObj, countObj, i
 		return false
 	}
 	return !assignedIn(p, l.Body, d)
+}
+
+// S-DMECCORDER: the column of the interleaved check-word stream a block's check words are written to is the column
+// the decoder assigns to that block
+func checkDMEccOrder(c *Ctx, r *Report) {
+	r.Rule("S-DMECCORDER", "for every multi-block symbol size the column (position modulo the block count) at which ErrorCorrection_EncodeECC200 starts writing block b's check words is the column from which DataBlocks_getDataBlocks fills block b, and the row offset matches the block's data length: the interleaving continues round-robin after the data codewords, so in the 144x144 symbol (1558 = 155*10 + 8 data codewords) the check words start with block 8; encoder loop header and decoder offset statements are folded for every block of every size", 6)
+	efd, ep := c.funcDeclOf("datamatrix/encoder", "ErrorCorrection_EncodeECC200")
+	dfd, dp := c.funcDeclOf("datamatrix/decoder", "DataBlocks_getDataBlocks")
+	if efd == nil || dfd == nil {
+		r.AnchorLost("S-DMECCORDER", "datamatrix ECC interleave", "EncodeECC200 / getDataBlocks not found")
+		return
+	}
+	// encoder: the loop that stores into sb[capacity + e]
+	var eloop, blockLoop *ast.ForStmt
+	ast.Inspect(efd.Body, func(n ast.Node) bool {
+		if l, ok := n.(*ast.ForStmt); ok {
+			for _, st := range l.Body.List {
+				if as, isA := st.(*ast.AssignStmt); isA && len(as.Lhs) == 1 {
+					if ix, isIx := as.Lhs[0].(*ast.IndexExpr); isIx && strings.Contains(exprString(ix.Index), "GetDataCapacity") {
+						eloop = l
+					}
+				}
+				if inner, isF := st.(*ast.ForStmt); isF && blockLoop == nil {
+					_ = inner
+				}
+			}
+		}
+		return true
+	})
+	ast.Inspect(efd.Body, func(n ast.Node) bool {
+		if l, ok := n.(*ast.ForStmt); ok && eloop != nil && l != eloop && l.Pos() < eloop.Pos() && eloop.End() <= l.End() {
+			blockLoop = l
+		}
+		return true
+	})
+	// decoder: the statements computing jOffset / iOffset inside the check-word loops
+	var dstmts []ast.Stmt
+	var jObj, iObj, jOff, iOff types.Object
+	ast.Inspect(dfd.Body, func(n ast.Node) bool {
+		l, ok := n.(*ast.ForStmt)
+		if !ok {
+			return true
+		}
+		for _, st := range l.Body.List {
+			if as, isA := st.(*ast.AssignStmt); isA && as.Tok == token.DEFINE && len(as.Lhs) == 1 {
+				if id, isI := as.Lhs[0].(*ast.Ident); isI && id.Name == "jOffset" {
+					dstmts = l.Body.List
+					if in, isIn := l.Init.(*ast.AssignStmt); isIn {
+						jObj = identObj(dp, in.Lhs[0])
+					}
+				}
+			}
+		}
+		return true
+	})
+	if eloop == nil || blockLoop == nil || dstmts == nil || jObj == nil {
+		r.Undecided("S-DMECCORDER", "datamatrix ECC interleave", c.pos(efd.Pos()), "check-word loops of the encoder / offset statements of the decoder not recognised")
+		return
+	}
+	// the outer decoder loop variable i
+	ast.Inspect(dfd.Body, func(n ast.Node) bool {
+		if l, ok := n.(*ast.ForStmt); ok {
+			for _, st := range l.Body.List {
+				if inner, isF := st.(*ast.ForStmt); isF && len(inner.Body.List) > 0 && &inner.Body.List[0] == &dstmts[0] {
+					if in, isIn := l.Init.(*ast.AssignStmt); isIn {
+						iObj = identObj(dp, in.Lhs[0])
+					}
+				}
+			}
+		}
+		return true
+	})
+	for _, st := range dstmts {
+		if as, isA := st.(*ast.AssignStmt); isA && as.Tok == token.DEFINE && len(as.Lhs) == 1 {
+			if id, isI := as.Lhs[0].(*ast.Ident); isI {
+				if id.Name == "jOffset" {
+					jOff = identObj(dp, id)
+				}
+				if id.Name == "iOffset" {
+					iOff = identObj(dp, id)
+				}
+			}
+		}
+	}
+	specialObj := localByName(dp, dfd, "specialVersion")
+	nObj := localByName(dp, dfd, "numResultBlocks")
+	if iObj == nil || jOff == nil || iOff == nil || specialObj == nil || nObj == nil {
+		r.Undecided("S-DMECCORDER", "datamatrix ECC interleave", c.pos(dfd.Pos()), "decoder offset variables not found")
+		return
+	}
+	blockObj := identObj(ep, blockLoop.Init.(*ast.AssignStmt).Lhs[0])
+	eObj := identObj(ep, eloop.Init.(*ast.AssignStmt).Lhs[0])
+	countObj := localByName(ep, efd, "blockCount")
+	if blockObj == nil || eObj == nil || countObj == nil {
+		r.Undecided("S-DMECCORDER", "datamatrix ECC interleave", c.pos(efd.Pos()), "encoder loop variables not found")
+		return
+	}
+	for _, sz := range refDM {
+		if sz.blocks < 2 {
+			continue
+		}
+		key := fmt.Sprintf("datamatrix %dx%d (%d blocks)", sz.rows, sz.cols, sz.blocks)
+		r.Analysed(key)
+		n := int64(sz.blocks)
+		capacity := int64(sz.data)
+		special := sz.rows == 144
+		longer := (capacity + n - 1) / n // data codewords of the longer blocks
+		bad := ""
+		for b := int64(0); b < n && bad == ""; b++ {
+			// encoder: first position e of block b
+			rr := &rpf{c: c, p: ep, env: map[types.Object]*Val{blockObj: vint(b), countObj: vint(n)}, callHook: func(x *rpf, call *ast.CallExpr, callee types.Object) (*Val, bool) {
+				if fn, ok := callee.(*types.Func); ok && fn.Name() == "GetDataCapacity" {
+					return vint(capacity), true
+				}
+				return nil, false
+			}}
+			var col int64 = -1
+			func() {
+				defer func() {
+					if y := recover(); y != nil {
+						if re, ok := y.(*rpfErr); ok {
+							bad = "?encoder: " + re.Error()
+							return
+						}
+						panic(y)
+					}
+				}()
+				// integer temporaries of the block loop that precede the check-word loop (e.g. the start column)
+				for _, st := range blockLoop.Body.List {
+					if st == ast.Stmt(eloop) {
+						break
+					}
+					if as, isA := st.(*ast.AssignStmt); isA && as.Tok == token.DEFINE && allIntRhs(ep, as) {
+						func() {
+							defer func() {
+								if y := recover(); y != nil {
+									if _, ok := y.(*rpfErr); !ok {
+										panic(y)
+									}
+								}
+							}()
+							rr.stmt(as)
+						}()
+					}
+				}
+				rr.stmt(eloop.Init)
+				col = rr.env[eObj].I
+			}()
+			if bad != "" {
+				break
+			}
+			if col < 0 || col >= n {
+				bad = fmt.Sprintf("block %d: the encoder starts its check words at position %d of the interleaved stream, not inside the first row of %d columns", b, col, n)
+				break
+			}
+			// decoder: which block does column `col` of check-word row 0 go to, and at which index?
+			dataLen := longer
+			if capacity%n != 0 && b >= capacity%n {
+				dataLen = longer - 1
+			}
+			denv := map[types.Object]*Val{jObj: vint(col), iObj: vint(longer), specialObj: vbool(special), nObj: vint(n)}
+			dr := &rpf{c: c, p: dp, env: denv}
+			func() {
+				defer func() {
+					if y := recover(); y != nil {
+						if re, ok := y.(*rpfErr); ok {
+							bad = "?decoder: " + re.Error()
+							return
+						}
+						panic(y)
+					}
+				}()
+				for _, st := range dstmts {
+					switch st.(type) {
+					case *ast.AssignStmt, *ast.IfStmt:
+						if as, isA := st.(*ast.AssignStmt); isA && as.Tok != token.DEFINE {
+							continue // the store into result[...] and the running offset
+						}
+						dr.stmtC(st)
+					}
+				}
+			}()
+			if bad != "" {
+				break
+			}
+			gotBlock, gotIdx := denv[jOff].I, denv[iOff].I
+			switch {
+			case gotBlock != b:
+				bad = fmt.Sprintf("block %d writes its check words at column %d of the interleaved stream, but the decoder hands that column to block %d: what the library writes for this size cannot be corrected by the library (the round-robin continues after the %d data codewords, so check words start with block %d)", b, col, gotBlock, capacity, capacity%n)
+			case gotIdx != dataLen:
+				bad = fmt.Sprintf("block %d has %d data codewords, but the decoder stores its first check word at index %d", b, dataLen, gotIdx)
+			}
+		}
+		reportFold(r, c, "S-DMECCORDER", key, eloop.Pos(), bad)
+	}
 }
